@@ -896,6 +896,7 @@ int main() {
 
 ALLOWED_REJECTIONS = (
     "Dangerous inversion risking truncation to 0",
+    "Dangerous inversion: this Rep cannot hold values large enough for a safe",
     "Cannot represent constant in this unit/rep",
     "Value outside range of destination type",
     "Cannot represent non-integer in integral destination type",
